@@ -41,6 +41,10 @@ Section Run.
         flat_map (fun e => map (fun d => homog_closed o R s1 (snd d) (fst d) e) dips) elec
         ++ flat_map (fun m => flat_map (fun d => [sv_dot o (fst m) (sarvas o (snd d) (fst d) (fst m));
                                                    sv_dot o (fst m) (biot_savart_primary o (snd d) (fst d) (fst m))]) dips) meg
+    | 3%Z =>     (* closed-form pieces of the pipeline: primary-current MEG (nmeg x ndip), infinite-medium potential at the points (nelec x ndip) *)
+        let s1 := inner_sigma o sigmas in
+        flat_map (fun m => map (fun d => meg_primary_sensor o (snd d) (fst d) (fst m) (snd m)) dips) meg
+        ++ flat_map (fun e => map (fun d => infinite_pot o s1 (snd d) (fst d) e) dips) elec
     | _ => []
     end.
 
